@@ -1,7 +1,9 @@
 #!/bin/bash
-# tools/fuzz.sh <PROP> <seq|conc> [runs-per-job] [jobs]
-# Coverage-guided amplification (libFuzzer via cargo-fuzz, ASan on) of the property's SEQ / CONC campaign.
-# exit 0 = no violation in the campaign, 1 = VIOLATION (reproduced by `hlv replay`), 2 = could not run.
+# tools/fuzz.sh <PROP> <seq|conc|eval> [runs-per-job] [jobs]
+# Coverage-guided amplification (libFuzzer via cargo-fuzz, ASan on) of the property's SEQ / CONC campaign, or
+# (engine "eval") of its per-case evaluator (C07 constructor checks, C12 fault enumeration, C16 drop plans).
+# exit 0 = no violation in the campaign, 1 = VIOLATION (reproduced by `hlv replay`, or for C16 a sanitizer
+# report reproduced from the saved input), 2 = could not run / sanitizer report outside the property's oracle.
 # Writes a summary line to stdout and a JSON summary to work/fuzz-<PROP>-<engine>.json.
 PROP="$1"; ENG="$2"; RUNS="${3:-40000}"; JOBS="${4:-8}"
 ROOT="$(cd "$(dirname "$0")/.." && pwd)"
@@ -26,7 +28,9 @@ BIN="$(ls -t "$ROOT"/fuzz/fuzz/target/*/release/fuzz_$ENG 2>/dev/null | head -1)
 before="$(ls "$ROOT/replays" 2>/dev/null | grep -c "^$PROP-fuzz-")"
 cd "$ROOT/work/fuzzlogs" || exit 2
 rm -f fuzz-*.log
-"$BIN" "$CORPUS" -artifact_prefix="$ART" -runs="$RUNS" -seed="$SEED" -len_control=0 -max_len=260 -jobs="$JOBS" -workers="$JOBS" -print_final_stats=1 >"$ROOT/work/fuzzlogs/driver-$PROP-$ENG.log" 2>&1
+MAXLEN=260
+if [ "$ENG" = eval ]; then case "$PROP" in C16) MAXLEN=40;; C12) MAXLEN=160;; C07) MAXLEN=200;; esac; fi
+"$BIN" "$CORPUS" -artifact_prefix="$ART" -runs="$RUNS" -seed="$SEED" -len_control=0 -max_len=$MAXLEN -jobs="$JOBS" -workers="$JOBS" -print_final_stats=1 >"$ROOT/work/fuzzlogs/driver-$PROP-$ENG.log" 2>&1
 execs=$(grep -h "stat::number_of_executed_units" fuzz-*.log 2>/dev/null | awk '{s+=$2} END {print s+0}')
 cov=$(grep -h "cov:" fuzz-*.log 2>/dev/null | sed -n 's/.*cov: \([0-9]*\).*/\1/p' | sort -n | tail -1)
 corpus=$(ls "$CORPUS" | wc -l)
@@ -38,6 +42,31 @@ if [ "$after" -gt "$before" ]; then
 		if "$ROOT/harness/target/release/hlv" replay "$ROOT/replays/$f" | grep -q "^VIOLATION"; then
 			echo "VIOLATION property=$PROP replay=$ROOT/replays/$f"; code=1; break
 		fi
+	done
+fi
+# sanitizer reports (the target did not get to write a replay file): reproduce from the saved input
+if [ $code -eq 0 ] && [ "$after" -eq "$before" ]; then
+	for a in "$ART"crash-* "$ART"leak-*; do
+		[ -f "$a" ] || continue
+		if "$BIN" "$a" >"$ROOT/work/fuzzlogs/repro-$PROP-$ENG.log" 2>&1; then continue; fi
+		summary="$(grep -m1 -E "^SUMMARY: |ERROR: (Address|Leak)Sanitizer" "$ROOT/work/fuzzlogs/repro-$PROP-$ENG.log" | cut -c1-200)"
+		if [ "$PROP" = C16 ]; then
+			rp="$ROOT/replays/$PROP-fuzz-sanitizer-$(basename "$a" | cut -c1-24).json"
+			python3 - "$a" "$rp" "$PROP" "$ENG" "$summary" <<'PY'
+import json, sys
+a, rp, prop, eng, summary = sys.argv[1:6]
+json.dump({"property": prop, "signature": "sanitizer|" + summary.split(":")[1].strip() if ":" in summary else "sanitizer", "detail": summary,
+           "found_by": "libFuzzer + AddressSanitizer", "case": {"engine": "fuzz-artifact", "target": "fuzz_" + eng, "bytes": list(open(a, "rb").read())}}, open(rp, "w"), indent=1)
+PY
+			echo "VIOLATION property=$PROP replay=$rp"; echo "  $summary"; code=1
+		else
+			echo "INCONCLUSIVE: sanitizer report while fuzzing $PROP/$ENG, outside the property's oracle: $summary (input kept at $a)"; code=2
+		fi
+		break
+	done
+	for a in "$ART"oom-* "$ART"timeout-*; do
+		[ -f "$a" ] || continue
+		echo "INCONCLUSIVE: libFuzzer stopped on $(basename "$a") (resource limit, not a verdict)"; [ $code -eq 0 ] && code=2; break
 	done
 fi
 echo "{\"property\":\"$PROP\",\"engine\":\"$ENG\",\"executions\":${execs:-0},\"edge_coverage\":${cov:-0},\"corpus_files\":$corpus,\"runs_per_job\":$RUNS,\"jobs\":$JOBS,\"seed\":$SEED,\"violation\":$code}" > "$ROOT/work/fuzz-$PROP-$ENG.json"
